@@ -8,7 +8,8 @@
    is accepted.  That inclusion is explored by enumeration of structures on the library and on
    the extracted model (stream spec) and is therefore bounded in the number of repetitions. *)
 
-From SwiftMT Require Import Base.Bytes Engine.Layout Engine.Tokens Engine.Facts Engine.Replay Engine.Instance Engine.Extract Engine.Factor Engine.FactorInstance.
+From Coq Require Import Strings.String.
+From SwiftMT Require Import Base.Bytes Engine.Layout Engine.Tokens Engine.Facts Engine.Replay Engine.Instance Engine.Extract Engine.Factor Engine.FactorInstance Engine.Regex Engine.Abs Engine.AbsSound Engine.Total Engine.AbsInstance Engine.AbsResult gen.Specs.
 
 (* one accepted message of a structure => every message with the same tags whose contents the
    same field parsers accept is accepted, with the same field types, letters and tags in order *)
@@ -53,6 +54,65 @@ Proof.
   exact (proj2 (proj2 (accept_exact_bytes T L H crlf fparse fuel w toks its Hw Ht Hr))).
 Qed.
 
+(* INCLUSION, unbounded.  The independent specification of a type (spec/mt_layouts.json rendered as a tag expression,
+   gen/Specs.v) is a regular language over full tags.  For the 24 types not listed in inclusion_open: EVERY text whose
+   tag sequence is a word of the specification -- any number of repetitions, any combination of optional fields and option
+   letters -- and whose tokens are good is accepted by the regenerated layout and reproduced token for token.
+   A token is good when every field parser the layout may apply to its tag answers as expected on its content: a plain
+   field parser accepts, an option family accepts exactly the letters it has an arm for (C14).
+   Proved by an abstract interpretation of the layout over the residuals of the expression (Engine/Abs.v), whose
+   soundness with respect to the interpreter is Engine/AbsSound.v and whose verdict on the regenerated layouts is
+   re-computed on every run (gen_inclusion_ok). *)
+Theorem C03_specification_is_accepted : forall T L R,
+  lookup T all_layouts = Some L -> lookup T specs = Some R -> mem T inclusion_open = false ->
+  forall fparse toks, matches R (map fst toks) -> Forall (good_token fparse L) toks ->
+  forall f, lsize L + List.length toks + 1 <= f ->
+  exists its, trun fparse f L toks = Accept its /\ map tok_of its = toks.
+Proof. exact spec_inclusion. Qed.
+
+(* for the open types (except MT204, of whose specification no word is accepted): the specification minus the listed
+   deviations (spec/mt_layouts_restricted.json: MT940 without 25P / 60M / 62M / final 86, with 1..500 statement lines;
+   MT196 without 11a; MT101/104/107 with at most one of the two field-50 roles per place, in MT101 sequence B an ordering
+   customer only after an instructing party) IS accepted, unboundedly *)
+Theorem C03_restricted_specification_is_accepted : forall T L R,
+  lookup T all_layouts = Some L -> lookup T specs_restricted = Some R ->
+  forall fparse toks, matches R (map fst toks) -> Forall (good_token fparse L) toks ->
+  forall f, lsize L + List.length toks + 1 <= f ->
+  exists its, trun fparse f L toks = Accept its /\ map tok_of its = toks.
+Proof. exact spec_inclusion_restricted. Qed.
+
+(* the general statement: any layout that passes the analysis accepts every good word of the expression *)
+Theorem C03_analysis_is_sound : forall fparse fp U n L R, includes fp U n L R = true -> loops_ok L = true ->
+  forall toks, matches R (map fst toks) -> Forall (good fparse fp U) toks ->
+  forall f, lsize L + List.length toks + 1 <= f -> exists its, trun fparse f L toks = Accept its.
+Proof. exact includes_accepts. Qed.
+
+(* membership in the specification is decidable, by the matcher the correspondence runs use *)
+Theorem C03_specification_membership : forall w r, matchb r w = true <-> matches r w.
+Proof. exact matchb_spec. Qed.
+
+(* the six open types are open for a reason: each has a word of its specification, with good tokens, that its layout
+   rejects (the listed findings C03-mt940-25p, C03-mt204-field-order, C03-mt196-11a, C03-mt101/104/107 two fields 50) *)
+Local Open Scope string_scope.
+Local Open Scope list_scope.
+Definition spec_word_rejected (T : string) (tags : list string) : Prop :=
+  let toks := map (fun t => (bs t, bs "X")) tags in
+  match lookup (bs T) specs, lookup (bs T) all_layouts with
+  | Some R, Some L => matchb R (map fst toks) = true /\ (exists e, trun model_fparse 400 L toks = Reject e)
+  | _, _ => False
+  end.
+Theorem C03_inclusion_refuted_for_open_types :
+  spec_word_rejected "MT940" ["20"; "25P"; "28C"; "60F"; "61"; "62F"] /\
+  spec_word_rejected "MT204" ["20"; "19"; "30"; "20"; "32B"; "53A"] /\
+  spec_word_rejected "MT196" ["20"; "21"; "76"; "11R"] /\
+  spec_word_rejected "MT101" ["20"; "28D"; "50C"; "50F"; "30"; "21"; "32B"; "59"; "71A"].
+Proof. vm_compute. repeat split; try reflexivity; eexists; reflexivity. Qed.
+
 Print Assumptions C03_structure_decides_partial.
 Print Assumptions C03_accepted_is_reproduced.
 Print Assumptions C03_accepted_is_reproduced_bytes.
+Print Assumptions C03_specification_is_accepted.
+Print Assumptions C03_analysis_is_sound.
+Print Assumptions C03_specification_membership.
+Print Assumptions C03_inclusion_refuted_for_open_types.
+Print Assumptions C03_restricted_specification_is_accepted.
